@@ -583,3 +583,8 @@ def native_source(raw):
     Used only to furnish a replayable input after an obligation failed; it never decides."""
     return ('#![allow(dead_code, unused)]\n' + raw('toposort_impl') + '\n' + raw('sort_by_indices').replace('pub(crate) ', '', 1)
             + '\n' + NATIVE_MAIN)
+
+
+def replay_args(inp):
+    import json
+    return [json.dumps(inp)]
